@@ -90,6 +90,12 @@ def _forecast_spec(route, mu):
         return list(WEIGHTS), k
     if route == 'scaled250':
         return [250.0 * w for w in WEIGHTS], mu / 250.0
+    if route == 'subthreshold-obs':
+        # the observed catalog was not cut to the forecast's magnitude range: every third event lies below the lowest edge
+        return [mu * w for w in WEIGHTS], ['subthreshold-obs']
+    if route == 'data-copy-edited':
+        # history: the caller normalises the array that forecast.data RETURNED, in place, before the test
+        return [mu * w for w in WEIGHTS], ['data-copy-edited']
     if route == 'read-then-scaled':
         # history on one forecast object: its total is read (and an N-test run) BEFORE it is scaled to mu
         k = int(mu) if (float(mu).is_integer() and mu >= 1) else mu
@@ -134,8 +140,8 @@ def cases(tier, seed):
     add(_catalog_cases([0, 1, 2, 3], 5, 4, 5))
     for ms in space.chunks(space.multisets([0, 1, 2, 3], 1, 3), 6):
         add([dict(kind='catalog_history', msets=[list(m) for m in ms], ns=[0, 1, 2], firsts=['number_test', 'iterate', 'get_event_counts'])])
-    add(_law_cases(MUS_Q, ['direct', 'scaled', 'read-then-scaled'], []))
-    add(_law_cases(MUS_Q, ['direct', 'scaled'], FACTORS_Q, with_poisson=False))
+    add(_law_cases(MUS_Q, ['direct', 'scaled', 'read-then-scaled', 'subthreshold-obs', 'data-copy-edited'], []))
+    add(_law_cases(MUS_Q, ['direct', 'scaled', 'subthreshold-obs'], FACTORS_Q, with_poisson=False))
     if tier == 'quick':
         # seed-selected additional complete block of the thorough space (all mu x all n for one extra variance law)
         extra = (FACTORS_EXTRA + ['abs'])[seed % 4]
@@ -160,9 +166,14 @@ def region():
     return _REGION
 
 
-def observed_catalog(n):
-    """Real CSEPCatalog with n events (all in cell 0, magnitude 5.5)."""
+def observed_catalog(n, sub=False):
+    """Real CSEPCatalog with n events (all in cell 0, magnitude 5.5; sub: every third one below the lowest magnitude edge)."""
     from csep.core.catalogs import CSEPCatalog
+    if sub:
+        base = observed_catalog(n)
+        data = base.catalog.copy()
+        data['magnitude'][1::3] = MAGS[0] - 1.5
+        return CSEPCatalog(data=data, region=region(), name='obs')
     if n in _OBS_CACHE:
         return _OBS_CACHE[n]
     data = numpy.zeros(n, dtype=CSEPCatalog.dtype)
@@ -183,6 +194,16 @@ def observed_catalog(n):
 
 def build_forecast(rates, scale):
     fc = fixtures.gridded_forecast(numpy.array(rates, dtype=float).reshape(len(ORIGINS), len(MAGS)), region(), MAGS)
+    if isinstance(scale, (list, tuple)) and scale[0] == 'subthreshold-obs':
+        return fc
+    if isinstance(scale, (list, tuple)) and scale[0] == 'data-copy-edited':
+        d = fc.data
+        try:
+            d /= d.sum()
+            d[...] = 0.0
+        except ValueError:
+            pass            # a read-only array protects the forecast just as well
+        return fc
     if isinstance(scale, (list, tuple)):
         from csep.core import poisson_evaluations
         _ = fc.event_count, fc.sum()
@@ -213,14 +234,16 @@ SITES = {'poisson': 'csep.core.poisson_evaluations.number_test',
 
 
 def _plain_scale(scale):
-    return scale[1] if isinstance(scale, (list, tuple)) else scale
+    if isinstance(scale, (list, tuple)):
+        return scale[1] if len(scale) > 1 else None
+    return scale
 
 
 def call_law(kind, spec, n):
     """One call of the public test on fresh real objects -> (delta1, delta2, observed_statistic, forecast total)."""
     from csep.core import poisson_evaluations, binomial_evaluations
     fc = build_forecast(spec['rates'], spec['scale'])
-    obs = observed_catalog(n)
+    obs = observed_catalog(n, sub=(isinstance(spec['scale'], (list, tuple)) and spec['scale'][0] == 'subthreshold-obs'))
     total = float(fc.event_count)
     if kind == 'poisson':
         res = poisson_evaluations.number_test(fc, obs)
